@@ -25,11 +25,12 @@ from .. import core
 
 TIERS = {
     # k_random: random fills per shape; field_rand: random backgrounds for the field extremes;
-    # wl_every: every n-th frame also at every wrong length; procs: driver / TLC processes
-    "quick": dict(k_random=3, field_rand=1, field_lite=True, windows=False, wl_every=150,
-                  procs=4, chunks=12, tlc_procs=4),
-    "thorough": dict(k_random=40, field_rand=3, field_lite=False, windows=True, wl_every=400,
-                     procs=8, chunks=64, tlc_procs=8),
+    # wl_every: every n-th frame also at every wrong length; procs: driver / TLC processes;
+    # chunk: frames per driver invocation (= at most that many events per TLC process)
+    "quick": dict(k_random=3, field_rand=1, field_lite=True, windows=False, win_df=[], wl_every=150,
+                  procs=4, chunk=52000, tlc_procs=4),
+    "thorough": dict(k_random=40, field_rand=3, field_lite=False, windows=True, win_df=[], wl_every=400,
+                     procs=8, chunk=200000, tlc_procs=8),
 }
 HANG_MS = 10000
 HANG_CONFIRM_MS = 60000
@@ -125,9 +126,11 @@ def _range_job(run, exe, base, a, b, crashes):
     return parts
 
 
-def decode_pass(run, want):
-    """want: subset of {"c01", "c07", "c08"}.  Returns a dict describing the pass."""
-    t = TIERS[run.tier]
+def decode_pass(run, want, **override):
+    """want: subset of {"c01", "c07", "c08"}; override: tier parameters a property changes.
+    Returns a dict describing the pass."""
+    t = dict(TIERS[run.tier])
+    t.update(override)
     res = {"tier": t}
     t0 = time.time()
     # M
@@ -151,14 +154,14 @@ def decode_pass(run, want):
     # driver
     exe = core.build_rs("c01")
     base = dict(shapes=shapes, seed=run.seed, k_random=t["k_random"], field_rand=t["field_rand"],
-                field_lite=t["field_lite"], windows=t["windows"], wl_every=t["wl_every"],
-                hang_ms=HANG_MS, emit07=("c07" in want), emit08=("c08" in want),
+                field_lite=t["field_lite"], windows=t["windows"], win_df=t["win_df"], wl_every=t["wl_every"],
+                hang_ms=HANG_MS, emit01=("c01" in want), emit07=("c07" in want), emit08=("c08" in want),
                 sample_every=20011 if run.tier == "quick" else 400009)
     cfg0 = _write_cfg(run, "cfg_count", base, out=run.work)
     p = subprocess.run([exe, "count", cfg0], stdout=subprocess.PIPE, text=True, timeout=1200)
     total = int(p.stdout.strip())
     res["frames"] = total
-    nchunks = t["chunks"]
+    nchunks = max(t["procs"], (total + t["chunk"] - 1) // t["chunk"])
     step = (total + nchunks - 1) // nchunks
     ranges = [(a, min(a + step, total)) for a in range(0, total, step)]
     crashes = []
@@ -211,9 +214,10 @@ def decode_pass(run, want):
     return res
 
 
-def validate_parts(run, res, trace_module, fname, max_lines=250000):
+def validate_parts(run, res, trace_module, fname, max_lines=250000, keep=False):
     """Validate <part>/<fname> of every part with its own TLC process.  Returns
-    (list of (event, extra printed fields), events validated, list of TlcResult)."""
+    (list of (event, extra printed fields), events validated, list of TlcResult).
+    Trace files are deleted once validated (the rejected events are kept in memory)."""
     t = res["tier"]
     files = []
     for _, d in res["parts"]:
@@ -241,6 +245,8 @@ def validate_parts(run, res, trace_module, fname, max_lines=250000):
                 for i, line in enumerate(f, 1):
                     if i in rej:
                         evs.append((json.loads(line), rej[i]))
+        if not keep and run.tier == "thorough":
+            os.remove(path)
         return n, evs, r
 
     with cf.ThreadPoolExecutor(max_workers=t["tlc_procs"]) as ex:
@@ -278,7 +284,9 @@ def _split(path, max_lines):
 
 def first_events(res, fname, n=3, pred=None):
     out = []
-    for _, d in res["parts"]:
+    parts = res["parts"]
+    stride = max(1, len(parts) // (n + 1))
+    for _, d in parts[stride::stride] + parts[:1]:
         p = os.path.join(d, fname)
         if not os.path.exists(p):
             continue
